@@ -210,11 +210,11 @@ func (s *ExecutionPayloadHeader) View() *ExecutionPayloadHeaderView {
 	if err != nil {
 		panic(err)
 	}
-	pr, cb, sr, rr := (*RootView)(&s.ParentHash), s.FeeRecipient.View(), (*RootView)(&s.StateRoot), (*RootView)(&s.ReceiptsRoot)
-	lb, rng, nr, gl, gu := s.LogsBloom.View(), (*RootView)(&s.PrevRandao), s.BlockNumber, s.GasLimit, s.GasUsed
+	pr, cb, sr, rr := common.RootViewOf(s.ParentHash), s.FeeRecipient.View(), common.RootViewOf(s.StateRoot), common.RootViewOf(s.ReceiptsRoot)
+	lb, rng, nr, gl, gu := s.LogsBloom.View(), common.RootViewOf(s.PrevRandao), s.BlockNumber, s.GasLimit, s.GasUsed
 	ts, bf := Uint64View(s.Timestamp), &s.BaseFeePerGas
-	bh, tr := (*RootView)(&s.BlockHash), (*RootView)(&s.TransactionsRoot)
-	wr := (*RootView)(&s.WithdrawalsRoot)
+	bh, tr := common.RootViewOf(s.BlockHash), common.RootViewOf(s.TransactionsRoot)
+	wr := common.RootViewOf(s.WithdrawalsRoot)
 	bgu, ebg := &s.BlobGasUsed, &s.ExcessBlobGas
 
 	v, err := AsExecutionPayloadHeader(ExecutionPayloadHeaderType.FromFields(pr, cb, sr, rr, lb, rng, nr, gl, gu, ts, ed, bf, bh, tr, wr, bgu, ebg))
